@@ -222,6 +222,12 @@ impl Property for C20 {
         let nb = src.below(5);
         let mut buckets: Vec<f64> = (0..nb).map(|k| k as f64 * 3.0 + src.below(6) as f64 / 2.0).collect();
         buckets.dedup();
+        // lists the constructor adjusts: a trailing +Inf (dropped), +Inf alone (no finite bucket at all)
+        match src.below(8) {
+            0 => buckets.push(f64::INFINITY),
+            1 => buckets = vec![f64::INFINITY],
+            _ => {}
+        }
         let default_buckets = buckets.is_empty();
         let prefix = match src.below(3) {
             0 => None,
@@ -341,7 +347,9 @@ impl Property for C20 {
                         return fail("macro-handle-is-not-the-registered-metric", ctx(&format!("updated the returned handle by {} but the registered metric reads {}", amt, v)));
                     }
                     if matches!(arm.kind, Kind::H | Kind::HV) {
-                        let want_b: Vec<f64> = if arm.buckets && !buckets.is_empty() { buckets.clone() } else { prometheus::DEFAULT_BUCKETS.to_vec() };
+                        // what the explicit constructor makes of the list (C08's acceptance predicate: a trailing +Inf is dropped, an
+                        // empty list selects the defaults)
+                        let want_b: Vec<f64> = if arm.buckets { crate::props::c08::accept(&buckets).expect("generated bucket lists are valid") } else { prometheus::DEFAULT_BUCKETS.to_vec() };
                         if *bounds != want_b {
                             unregister(&handle);
                             return fail("macro-buckets-differ", ctx(&format!("collected bucket bounds {:?}, expected {:?}", bounds, want_b)));
